@@ -140,32 +140,20 @@ def native [DecidableEq κ] (n : Nat) (tl : List (Ev κ α)) (e : End) : List (O
 
 /-! ### (a') schedules: a tick that lands inside the completion of the source
 
-  `WindowWhen` handles the completion of its source in two steps that are not atomic
-  (`operator_transformations.go:662-665`): `flush(ctx, true)` closes the current window under the
-  mutex, then `destination.CompleteWithContext(ctx)`. The boundary is served by another goroutine
-  (`Interval`, `operator_creation.go:90-107`). A tick whose `flush(ctx, false)` (`:624-645`) runs in
-  between opens a fresh window and hands it to the destination; `MergeAll` subscribes to it
-  (`operator_combining.go:143-158`) and counts it, nobody ever completes it (the source is done, the
-  boundary is unsubscribed when the destination completes), so that group's merged stream never
-  completes and neither does the limiter: the completion of the source is LOST. (An error of the
-  source is not affected: GroupBy hands it to the destination before it touches the groups,
-  `operator_transformations.go:368-373`.) -/
-
-/-- key `k` has a group at the end of the timeline -/
-def hasGroup [DecidableEq κ] (k : κ) (tl : List (Ev κ α)) : Bool := (items tl).any (fun p => p.1 = k)
-
-/-- what the pinned tree does with such a tick (known finding C20 "tick-inside-completion"). With
-    repo_fixes/C20-windowwhen-late-window.patch applied the tick is ignored: set this to `false`
-    (then `nativeSched = native` for every schedule and the exclusion of `nativeSched_partial` goes). -/
-def lateTickLosesCompletion : Bool := true
+  `WindowWhen` handles the completion of its source in two steps (`operator_transformations.go`):
+  `flush(ctx, true)` closes the current window under the mutex, then
+  `destination.CompleteWithContext(ctx)`; the boundary (`Interval`) is served by another goroutine,
+  so a tick can be served in between. `flush` records under the mutex that the last window has
+  been closed (`closed`), and a later `flush` returns at once: such a tick opens nothing, and the
+  schedule has no influence on what the limiter delivers.
+  (Before /repo commit a396a6b the tick opened a fresh window that `MergeAll` subscribed to and that
+  nobody ever completed: the completion of the source was lost. The harness keeps driving these
+  schedules, `latetick=all`.) -/
 
 /-- the native limiter under a schedule that also says which keys' tickers fire inside the
-    completion of the source (`late`) -/
-def nativeSched [DecidableEq κ] (n : Nat) (tl : List (Ev κ α)) (e : End) (late : List κ) : List (Out κ α) :=
-  match e with
-  | .complete =>
-      if lateTickLosesCompletion && late.any (fun k => hasGroup k tl) then (run n tl).map (fun p => Out.item p.1 p.2) else native n tl e
-  | _ => native n tl e
+    completion of the source (`late`): those ticks are ignored -/
+def nativeSched [DecidableEq κ] (n : Nat) (tl : List (Ev κ α)) (e : End) (_late : List κ) : List (Out κ α) :=
+  native n tl e
 
 /-! ### (b) ulule -/
 
